@@ -38,6 +38,8 @@ def env_for_impl(extra=None):
     env.setdefault("PYTHONHASHSEED", "0")
     env["PAULIE_VERIF"] = "1"
     env["PAULIE_REPO"] = REPO
+    for k in ("OMP_NUM_THREADS", "OPENBLAS_NUM_THREADS", "MKL_NUM_THREADS", "NUMEXPR_NUM_THREADS"):
+        env[k] = "1"   # many worker processes: no BLAS thread oversubscription
     if extra:
         env.update(extra)
     return env
